@@ -92,6 +92,11 @@ class FlowCx:
         self._tags_op(op, depth, out, set())
         return out
 
+    def _tags_rv_public(self, rv, depth=40):
+        out = set()
+        self._tags_rv(rv, depth, out, set())
+        return out
+
     def _tags_place(self, pl, depth, out, seen):
         fn = self.fn
         key = (pl[0], tuple(pl[1:]))
